@@ -248,4 +248,9 @@ pub trait Prop: Sync {
     fn case_timeout_secs(&self) -> u64 {
         20
     }
+    /// A worker that stays on one (non-isolated) case this long is killed and the case re-run in isolation
+    /// (three reproduced time-outs there make a `hang` violation; finishing there is just a slow case)
+    fn stall_secs(&self, tier: Tier) -> u64 {
+        tier.pick(30, 90)
+    }
 }
